@@ -61,6 +61,8 @@ def run(tier):
     rule_R3l(res, prog)
     rule_R7(res, prog)
     rule_R8(res, prog)
+    from rules.C17 import rule_R1w
+    rule_R1w(res, prog, prop=PROP, rid="C02.R9")
     return res.finish()
 
 
